@@ -43,35 +43,54 @@ pub fn memory_to_calldata_optimization(source_unit: SourceUnit) -> HashSet<Loc> 
         }
 
         if box_function_definition.body.is_some() {
-            let assign_nodes = ast::extract_target_from_node(
-                Target::Assign,
+            let assign_nodes = ast::extract_targets_from_node(
+                vec![
+                    Target::Assign,
+                    Target::AssignAdd,
+                    Target::AssignAnd,
+                    Target::AssignDivide,
+                    Target::AssignModulo,
+                    Target::AssignMultiply,
+                    Target::AssignOr,
+                    Target::AssignShiftLeft,
+                    Target::AssignShiftRight,
+                    Target::AssignSubtract,
+                    Target::AssignXor,
+                ],
                 box_function_definition.body.unwrap().into(),
             );
 
             for assign_node in assign_nodes {
-                //Can unwrap because Target::Assign will always be an expression
+                //Can unwrap because all assignment targets are expressions
                 let expression = assign_node.expression().unwrap();
 
-                if let pt::Expression::Assign(_, box_expression, _) = expression {
-                    //check if the left hand side is a variable
-                    match *box_expression {
-                        //if assignment is to variable
-                        pt::Expression::Variable(identifier) => {
+                match expression {
+                    pt::Expression::Assign(_, box_expression, _)
+                    | pt::Expression::AssignAdd(_, box_expression, _)
+                    | pt::Expression::AssignAnd(_, box_expression, _)
+                    | pt::Expression::AssignDivide(_, box_expression, _)
+                    | pt::Expression::AssignModulo(_, box_expression, _)
+                    | pt::Expression::AssignMultiply(_, box_expression, _)
+                    | pt::Expression::AssignOr(_, box_expression, _)
+                    | pt::Expression::AssignShiftLeft(_, box_expression, _)
+                    | pt::Expression::AssignShiftRight(_, box_expression, _)
+                    | pt::Expression::AssignSubtract(_, box_expression, _)
+                    | pt::Expression::AssignXor(_, box_expression, _) => {
+                        //strip the array subscripts, `arr[i][j] = x` writes to `arr`
+                        let mut assigned_expression = *box_expression;
+                        while let pt::Expression::ArraySubscript(_, arr_subscript_box_expression, _) =
+                            assigned_expression
+                        {
+                            assigned_expression = *arr_subscript_box_expression;
+                        }
+
+                        //if the assignment is to a variable, it can not be calldata
+                        if let pt::Expression::Variable(identifier) = assigned_expression {
                             memory_args.remove(&identifier.name);
                         }
-
-                        //if assignment is array subscript
-                        pt::Expression::ArraySubscript(_, arr_subscript_box_expression, _) => {
-                            if let pt::Expression::Variable(identifier) =
-                                *arr_subscript_box_expression
-                            {
-                                //remove the variable name from the memory_args hashmap
-                                memory_args.remove(&identifier.name);
-                            }
-                        }
-
-                        _ => {}
                     }
+
+                    _ => {}
                 }
             }
 
